@@ -42,6 +42,11 @@ const (
 	aBool            // a boolean with a language (true only for values in lang)
 	aTrue
 	aFalse
+	aLenSplit // len(strings.Split(value, sep))
+	aElem     // strings.Split(value, sep)[idx] with a constant idx
+	aSingleE  // []string{strings.Split(value, sep)[idx]}
+	aLenCond  // len(strings.Split(value, sep)) OP k
+	aPosBool  // a boolean that can only be true when element idx of the split lies in lang
 )
 
 type absVal struct {
@@ -51,6 +56,9 @@ type absVal struct {
 	sep   string // for aSplitSp
 	lang  string // for aBool: values for which it may be true
 	neg   bool   // aBool negated (then it gives no constraint on either branch... positive info is in the else branch)
+	idx   int    // aElem, aSingleE, aPosBool
+	op    token.Token // aLenCond
+	k     int    // aLenCond
 }
 
 type tierB struct {
@@ -229,6 +237,11 @@ func (t *tierB) abs(fn *ssa.Function, v ssa.Value) absVal {
 						continue
 					}
 				}
+				if len(elems) == 1 {
+					if a := t.abs(fn, e); a.kind == aElem {
+						return absVal{kind: aSingleE, sep: a.sep, idx: a.idx}
+					}
+				}
 				allStr, allFn = false, false
 			}
 			switch {
@@ -240,8 +253,26 @@ func (t *tierB) abs(fn *ssa.Function, v ssa.Value) absVal {
 				return absVal{kind: aFuncs, funcs: fns}
 			}
 		}
+	case *ssa.BinOp:
+		l, r := t.abs(fn, x.X), t.abs(fn, x.Y)
+		if c, ok := x.Y.(*ssa.Const); ok && l.kind == aLenSplit && c.Value != nil && c.Value.Kind() == constant.Int {
+			k, _ := constant.Int64Val(c.Value)
+			switch x.Op {
+			case token.GTR, token.GEQ, token.LSS, token.LEQ, token.EQL, token.NEQ:
+				return absVal{kind: aLenCond, sep: l.sep, op: x.Op, k: int(k)}
+			}
+		}
+		_ = r
 	case *ssa.UnOp:
 		if x.Op == token.MUL {
+			if ia, ok := x.X.(*ssa.IndexAddr); ok {
+				if c, ok := ia.Index.(*ssa.Const); ok && c.Value != nil {
+					if a := t.abs(fn, ia.X); a.kind == aSplitSp {
+						k, _ := constant.Int64Val(c.Value)
+						return absVal{kind: aElem, sep: a.sep, idx: int(k)}
+					}
+				}
+			}
 			if g, ok := x.X.(*ssa.Global); ok {
 				if lits, ok := t.globalLits(g); ok {
 					return absVal{kind: aLits, lits: lits}
@@ -255,13 +286,19 @@ func (t *tierB) abs(fn *ssa.Function, v ssa.Value) absVal {
 				return absVal{kind: aFalse}
 			case aFalse:
 				return absVal{kind: aTrue}
-			case aBool:
+			case aBool, aPosBool, aLenCond:
 				a.neg = !a.neg
 				return a
 			}
 		}
 	case *ssa.Call:
 		c := x.Common()
+		if b, ok := c.Value.(*ssa.Builtin); ok && b.Name() == "len" && len(c.Args) == 1 {
+			if a := t.abs(fn, c.Args[0]); a.kind == aSplitSp {
+				return absVal{kind: aLenSplit, sep: a.sep}
+			}
+			return absVal{}
+		}
 		callee := c.StaticCallee()
 		if callee == nil {
 			return absVal{}
@@ -282,6 +319,12 @@ func (t *tierB) abs(fn *ssa.Function, v ssa.Value) absVal {
 			a0, a1 := t.abs(fn, c.Args[0]), t.abs(fn, c.Args[1])
 			if a1.kind == aLits {
 				switch a0.kind {
+				case aSingleE:
+					var alts []string
+					for _, l := range a1.lits {
+						alts = append(alts, "(str.to_re "+smtStr(l)+")")
+					}
+					return absVal{kind: aPosBool, sep: a0.sep, idx: a0.idx, lang: reUnion(alts)}
 				case aSingle:
 					var alts []string
 					for _, l := range a1.lits {
@@ -333,6 +376,17 @@ func (t *tierB) abs(fn *ssa.Function, v ssa.Value) absVal {
 				}
 			}
 		case "(*regexp.Regexp).MatchString":
+			if ea := t.abs(fn, c.Args[1]); ea.kind == aElem {
+				if ld, ok := c.Args[0].(*ssa.UnOp); ok && ld.Op == token.MUL {
+					if g, ok := ld.X.(*ssa.Global); ok {
+						if lit, ok := t.regexps[g.Pkg.Pkg.Name()+"."+g.Name()]; ok {
+							if l, err := MatchLang(lit.Pattern); err == nil {
+								return absVal{kind: aPosBool, sep: ea.sep, idx: ea.idx, lang: l}
+							}
+						}
+					}
+				}
+			}
 			if t.abs(fn, c.Args[1]).kind == aValue {
 				if ld, ok := c.Args[0].(*ssa.UnOp); ok && ld.Op == token.MUL {
 					if g, ok := ld.X.(*ssa.Global); ok {
@@ -365,6 +419,13 @@ func (t *tierB) abs(fn *ssa.Function, v ssa.Value) absVal {
 				return absVal{kind: aBool, lang: fmt.Sprintf("(re.++ %s (re.* (re.++ (str.to_re \" \") %s)))", nh, nh)}
 			}
 		default:
+			if isHandlerSig(callee) && callee.Blocks != nil && t.w.repoPkgs[callee.Pkg.Pkg] {
+				if ea := t.abs(fn, c.Args[0]); ea.kind == aElem {
+					if cl := t.lang(callee); cl != "re.all" {
+						return absVal{kind: aPosBool, sep: ea.sep, idx: ea.idx, lang: cl}
+					}
+				}
+			}
 			if isHandlerSig(callee) && callee.Blocks != nil && t.w.repoPkgs[callee.Pkg.Pkg] && t.abs(fn, c.Args[0]).kind == aValue {
 				if cl := t.lang(callee); cl != "re.all" {
 					return absVal{kind: aBool, lang: cl}
@@ -397,8 +458,135 @@ func (t *tierB) lang(fn *ssa.Function) string {
 	}
 	var contribs []string
 	unconstrained := false
-	var walk func(b, from *ssa.BasicBlock, cons []string, depth int)
-	walk = func(b, from *ssa.BasicBlock, cons []string, depth int) {
+	type pathSt struct {
+		cons   []string
+		split  bool
+		sep    string
+		lo, hi int // bounds on len(strings.Split(value, sep)); hi < 0: unbounded
+		pos    map[int][]string
+	}
+	clone := func(p pathSt) pathSt {
+		q := p
+		q.cons = append([]string{}, p.cons...)
+		q.pos = map[int][]string{}
+		for k, v := range p.pos {
+			q.pos[k] = append([]string{}, v...)
+		}
+		return q
+	}
+	negOp := map[token.Token]token.Token{token.GTR: token.LEQ, token.GEQ: token.LSS, token.LSS: token.GEQ, token.LEQ: token.GTR, token.EQL: token.NEQ, token.NEQ: token.EQL}
+	// apply the information that boolean a has value `want` on this path; false if the path is infeasible
+	var apply func(p *pathSt, a absVal, want bool) bool
+	apply = func(p *pathSt, a absVal, want bool) bool {
+		if a.neg {
+			want = !want
+		}
+		useSplit := func(sep string) bool {
+			if p.split && p.sep != sep {
+				return false
+			}
+			if !p.split {
+				p.split, p.sep, p.lo, p.hi = true, sep, 1, -1
+			}
+			return true
+		}
+		switch a.kind {
+		case aBool:
+			if want {
+				p.cons = append(p.cons, a.lang)
+			}
+		case aPosBool:
+			if want && useSplit(a.sep) {
+				p.pos[a.idx] = append(p.pos[a.idx], a.lang)
+				if p.lo < a.idx+1 {
+					p.lo = a.idx + 1
+				}
+			}
+		case aLenCond:
+			if !useSplit(a.sep) {
+				return true
+			}
+			op := a.op
+			if !want {
+				op = negOp[op]
+			}
+			switch op {
+			case token.GTR:
+				if p.lo < a.k+1 {
+					p.lo = a.k + 1
+				}
+			case token.GEQ:
+				if p.lo < a.k {
+					p.lo = a.k
+				}
+			case token.LSS:
+				if p.hi < 0 || p.hi > a.k-1 {
+					p.hi = a.k - 1
+				}
+			case token.LEQ:
+				if p.hi < 0 || p.hi > a.k {
+					p.hi = a.k
+				}
+			case token.EQL:
+				if p.lo < a.k {
+					p.lo = a.k
+				}
+				if p.hi < 0 || p.hi > a.k {
+					p.hi = a.k
+				}
+			}
+		}
+		return !(p.split && p.hi >= 0 && p.lo > p.hi)
+	}
+	nsep := func(sep string) string {
+		if len([]rune(sep)) == 1 {
+			return "(re.* (re.diff re.allchar (str.to_re " + smtStr(sep) + ")))"
+		}
+		return "(re.comp (re.++ re.all (str.to_re " + smtStr(sep) + ") re.all))"
+	}
+	// language of the values whose split satisfies the path's positional constraints
+	splitLang := func(p pathSt) string {
+		elem := func(i int) string {
+			ls := p.pos[i]
+			switch len(ls) {
+			case 0:
+				return nsep(p.sep)
+			case 1:
+				return ls[0]
+			}
+			return "(re.inter " + strings.Join(ls, " ") + ")"
+		}
+		seq := func(n int) string {
+			var parts []string
+			for i := 0; i < n; i++ {
+				if i > 0 {
+					parts = append(parts, "(str.to_re "+smtStr(p.sep)+")")
+				}
+				parts = append(parts, elem(i))
+			}
+			return reConcat(parts)
+		}
+		maxIdx := -1
+		for k := range p.pos {
+			if k > maxIdx {
+				maxIdx = k
+			}
+		}
+		if p.hi >= 0 && p.hi <= 8 {
+			var alts []string
+			for n := p.lo; n <= p.hi; n++ {
+				alts = append(alts, seq(n))
+			}
+			return reUnion(alts)
+		}
+		n := p.lo
+		if n < maxIdx+1 {
+			n = maxIdx + 1
+		}
+		return fmt.Sprintf("(re.++ %s (re.* (re.++ (str.to_re %s) %s)))", seq(n), smtStr(p.sep), nsep(p.sep))
+	}
+	var walk func(b, from *ssa.BasicBlock, st pathSt, depth int)
+	walk = func(b, from *ssa.BasicBlock, st pathSt, depth int) {
 		if depth > 200 {
 			unconstrained = true
 			return
@@ -418,14 +606,16 @@ func (t *tierB) lang(fn *ssa.Function) string {
 		switch x := last.(type) {
 		case *ssa.Return:
 			r := eval(x.Results[0])
-			cs := append([]string{}, cons...)
-			switch r.kind {
-			case aFalse:
+			if r.kind == aFalse {
 				return
-			case aBool:
-				if !r.neg {
-					cs = append(cs, r.lang)
-				}
+			}
+			p := clone(st)
+			if !apply(&p, r, true) {
+				return
+			}
+			cs := p.cons
+			if p.split && len(p.pos) > 0 {
+				cs = append(cs, splitLang(p))
 			}
 			if len(cs) == 0 {
 				unconstrained = true
@@ -438,30 +628,28 @@ func (t *tierB) lang(fn *ssa.Function) string {
 			}
 		case *ssa.If:
 			c := eval(x.Cond)
-			thenCons, elseCons := cons, cons
 			switch c.kind {
 			case aTrue:
-				walk(b.Succs[0], b, cons, depth+1)
+				walk(b.Succs[0], b, st, depth+1)
 				return
 			case aFalse:
-				walk(b.Succs[1], b, cons, depth+1)
+				walk(b.Succs[1], b, st, depth+1)
 				return
-			case aBool:
-				if !c.neg {
-					thenCons = append(append([]string{}, cons...), c.lang)
-				} else {
-					elseCons = append(append([]string{}, cons...), c.lang)
-				}
 			}
-			walk(b.Succs[0], b, thenCons, depth+1)
-			walk(b.Succs[1], b, elseCons, depth+1)
+			thenSt, elseSt := clone(st), clone(st)
+			if apply(&thenSt, c, true) {
+				walk(b.Succs[0], b, thenSt, depth+1)
+			}
+			if apply(&elseSt, c, false) {
+				walk(b.Succs[1], b, elseSt, depth+1)
+			}
 		case *ssa.Jump:
-			walk(b.Succs[0], b, cons, depth+1)
+			walk(b.Succs[0], b, st, depth+1)
 		default:
 			unconstrained = true
 		}
 	}
-	walk(fn.Blocks[0], nil, nil, 0)
+	walk(fn.Blocks[0], nil, pathSt{pos: map[int][]string{}}, 0)
 	l := reUnion(contribs)
 	if unconstrained {
 		t.notes[fn] = append(t.notes[fn], "some accepting path carries no recognised constraint on the value: outside the recogniser fragment")
